@@ -30,7 +30,8 @@ ASSUMPTIONS = [
 ]
 MIN_NONTRIVIAL = {'quick': 100000, 'thorough': 1000000}
 REQUIRED_MONITORS = ['contract:parse_aliquot', 'boundary:Tract.qqs',
-                     'boundary:PLSSDesc.qqs', 'direct:parse_aliquot']
+                     'boundary:PLSSDesc.qqs', 'direct:parse_aliquot',
+                     'boundary:Tract.parse(commit=False)']
 EXHAUSTIVE_SUBSPACES = {
     'quick': ["all 4680 chains of length <= 4 x 24 depth settings",
               "all 32768 chains of length 5 x 6 rotating depth settings"],
@@ -111,8 +112,13 @@ def check_case(chain, st, channel, ctx, rep, pytrs):
                 kw['qq_depth_max'] = st['max']
             if st['depth'] is not None:
                 kw['qq_depth'] = st['depth']
-            t.parse(**kw)
-            qqs, whole = t.qqs, t.aliquots_whole
+            if (len(chain) + (st['min'] or 0)) % 2:
+                # the pieces returned by a parse that is not committed
+                qqs, whole = t.parse(commit=False, **kw), None
+                ctx.hit('boundary:Tract.parse(commit=False)')
+            else:
+                t.parse(**kw)
+                qqs, whole = t.qqs, t.aliquots_whole
             ctx.hit('boundary:Tract.qqs')
         elif channel == 'plssdesc':
             # depth settings handed down from a description's config text
@@ -125,8 +131,15 @@ def check_case(chain, st, channel, ctx, rep, pytrs):
                               f"{len(d.tracts)} tracts for a one-section text")
                 return
         elif channel == 'plssdesc-keyword':
-            d = pytrs.PLSSDesc(f"T154N-R97W Sec 14: {text}", wait_to_parse=True)
+            # (when min/max are given as keywords, an exact depth in the
+            # description's own config no longer applies)
+            own = (f"qq_depth.{3 - (len(chain) % 3)}"
+                   if st['depth'] is None and len(chain) % 2 else None)
+            d = pytrs.PLSSDesc(f"T154N-R97W Sec 14: {text}", config=own,
+                               wait_to_parse=True)
             kw = {'break_halves': st['bh'], 'parse_qq': True}
+            if own and st['min'] is None:
+                kw['qq_depth_min'] = 2
             for a, b in (('min', 'qq_depth_min'), ('max', 'qq_depth_max'),
                          ('depth', 'qq_depth')):
                 if st[a] is not None:
